@@ -1787,6 +1787,32 @@ where
     }
 
     fn notify_fabric_removed(&self, fab_idx: NonZeroU8) {
+        // The subscriptions of the fabric go with it: nothing may report to that fabric
+        // any more, and a fabric added later under the same index must not inherit them
+        let removed = self
+            .state
+            .subscriptions
+            .remove(&self.subscriptions_buffers, |sub| {
+                (sub.ids().fab_idx == fab_idx).then_some("fabric removed")
+            });
+
+        // Keep the persisted set an exact mirror of the table
+        #[cfg(feature = "persistent-subscriptions")]
+        if removed {
+            let result = self.kv.access(|store, buf| {
+                self.state
+                    .subscriptions
+                    .persist_all(&self.subscriptions_buffers, store, buf)
+            });
+
+            if let Err(e) = result {
+                warn!("Failed to persist subscriptions: {:?}", e);
+            }
+        }
+
+        #[cfg(not(feature = "persistent-subscriptions"))]
+        let _ = removed;
+
         if let Err(e) = self
             .handler
             .lifecycle(self, LifecycleOp::FabricRemoval { fab_idx })
